@@ -21,6 +21,13 @@ def trustedSpec (trusted : List Prefix) (peerIsNil : Bool) : Option PAddr → Bo
   | none => false
   | some ip => !peerIsNil && trusted.any fun p => inRange p (canon ip)
 
+/-- the address a socket `net.Addr` (`*net.TCPAddr`, `*net.UDPAddr`, `*net.IPAddr`) denotes: a 4-byte IP slice is
+    IPv4, a 16-byte slice is IPv6 (possibly IPv4-mapped) with the address's zone; anything else is no IP -/
+def addrOfIP (ip : Bytes) (zone : Bytes) : Option PAddr :=
+  if ip.length = 4 then some { v6 := false, val := beNat ip, zone := [] }
+  else if ip.length = 16 then some { v6 := true, val := beNat ip, zone := zone }
+  else none
+
 /-- the property, clause by clause, on an observed outcome
     (`addrChanged`: RemoteAddr() differs from the peer's own; `failed`: the first read failed) -/
 def outcomeVerdict (isTrusted : Bool) (h : Hdr) (addrIsSrc addrIsOwn failed payloadIntact : Bool) : String :=
